@@ -585,6 +585,12 @@ impl CompressorOxide {
 #[cfg(miniz_oxide_verif)]
 impl CompressorOxide {
     /// (lookahead_pos, lookahead_size, dict.size, saved_match_len, dictionary ring + mirror)
+    /// Largest `lookahead_size + dict.size` seen by the match finders since the last call of this
+    /// function (the window holds both, so it must never exceed the window size).
+    pub fn verif_lz_fill_max(&mut self) -> usize {
+        core::mem::replace(&mut self.dict.verif_fill_max, 0)
+    }
+
     pub fn verif_lz_state(&self) -> (usize, usize, usize, u32, &[u8]) {
         (
             self.dict.lookahead_pos,
@@ -1369,6 +1375,10 @@ pub(crate) struct DictOxide {
     pub lookahead_pos: usize,
     pub size: usize,
     loop_len: u8,
+    /// Verification hook: high-water mark of `lookahead_size + size` seen where the match
+    /// finders are about to look for a match (read and cleared by `verif_lz_fill_max`).
+    #[cfg(miniz_oxide_verif)]
+    pub verif_fill_max: usize,
 }
 
 const fn probes_from_flags(flags: u32) -> [u32; 2] {
@@ -1388,6 +1398,8 @@ impl DictOxide {
             lookahead_pos: 0,
             size: 0,
             loop_len: 32,
+            #[cfg(miniz_oxide_verif)]
+            verif_fill_max: 0,
         }
     }
 
@@ -2128,6 +2140,10 @@ fn compress_normal(d: &mut CompressorOxide, callback: &mut CallbackOxide) -> boo
         }
 
         let mut len_to_move = 1;
+        #[cfg(miniz_oxide_verif)]
+        {
+            d.dict.verif_fill_max = cmp::max(d.dict.verif_fill_max, lookahead_size + d.dict.size);
+        }
         let mut cur_match_dist = 0;
         let mut cur_match_len = if saved_match_len != 0 {
             saved_match_len
@@ -2299,6 +2315,10 @@ fn compress_fast(d: &mut CompressorOxide, callback: &mut CallbackOxide) -> bool 
 
         while lookahead_size >= 4 {
             let mut cur_match_len = 1;
+            #[cfg(miniz_oxide_verif)]
+            {
+                d.dict.verif_fill_max = cmp::max(d.dict.verif_fill_max, lookahead_size + d.dict.size);
+            }
 
             let first_trigram = d.dict.read_unaligned_u32(cur_pos) & 0xFF_FFFF;
 
